@@ -299,6 +299,10 @@ func sysScenario(s *hx.Server, kind, rep, vhostPort, muxPort int, dist map[strin
 		case who < 0:
 			thr = append(thr, [2]int{sCStranded, 0})
 			r.Who = -1
+			if len(members) == 0 {
+				fails = append(fails, map[string]any{"key": "C13:sys:" + kn + ":endpoint-up-without-members",
+					"what": "whole frps: the " + kn + " group endpoint still takes connections (and answers none) although every member has left", "case": group})
+			}
 			if len(members) > 0 {
 				fails = append(fails, map[string]any{"key": "C13:sys:" + kn + ":conn-lost",
 					"what": "whole frps: a user connection to the " + kn + " group endpoint was answered by nobody although the group has members", "case": group})
